@@ -11,6 +11,7 @@ func verifBound(name string) int
 func verifAssume(c bool)
 func verifAssert(c bool, label string)
 func verifReach(label string)
+func verifProbe(key string, val int)
 func verifExpectBlock(mode int)
 func verifBlockForever()
 func verifQuiesce()
